@@ -137,7 +137,53 @@ pub fn gen_windows(rng: &mut Rng, nstores: usize, ns: &[usize]) -> Vec<IndexDef>
     indexes
 }
 
+/// Representability limits, driven on purpose. The classification comes from the model: the size field of a
+/// sized offset holds 16 bits (a tail of more than 65535 bytes cannot be described), the key count of an entry
+/// store 8 bits. Cases are chosen clearly on one side of each limit.
+fn gen_limit(seed: u64, which: u64) -> Value {
+    let mut rng = Rng::keyed(seed, "C02-limit", which);
+    let (case, expect, why) = match which % 4 {
+        0 | 1 => {
+            // indexed value store with n distinct 9-byte values: tail = 10 + w + w*(n-1) bytes, w = 3 for these sizes
+            let n = if which % 4 == 0 { 40_000 } else { 20_000 };
+            let st = StoreDef {
+                n,
+                common: vec![PDef { name: "v".into(), kind: PKind::Array { prefix: 0, store: 0 }, col: Col::Seq }, PDef { name: "id".into(), kind: PKind::UInt, col: Col::Seq }],
+                variants: vec![],
+                sort: None,
+                unique_keys: false,
+            };
+            let tail = 10 + 3 + 3 * (n - 1);
+            (
+                DirCase { seed: rng.next(), vstores: vec![true], stores: vec![st], indexes: vec![IndexDef { name: "index0".into(), store: 0, offset: 0, count: n as u32 }] },
+                if tail > 65535 { "unrepresentable" } else { "representable" },
+                format!("indexed value store tail of {tail} bytes"),
+            )
+        }
+        _ => {
+            // many properties with long names: key count and entry-store tail size
+            let nprops = if which % 4 == 2 { 300 } else { 250 };
+            let common: Vec<PDef> = (0..nprops).map(|i| PDef { name: format!("p{i:03}_{}", "n".repeat(190)), kind: PKind::UInt, col: Col::Small }).collect();
+            let st = StoreDef { n: 3, common, variants: vec![], sort: None, unique_keys: false };
+            let tail = 10 + nprops * (1 + 1 + 195);
+            (
+                DirCase { seed: rng.next(), vstores: vec![], stores: vec![st], indexes: vec![IndexDef { name: "index0".into(), store: 0, offset: 0, count: 3 }] },
+                if nprops > 255 || tail > 65535 { "unrepresentable" } else { "representable" },
+                format!("{nprops} key infos, entry store tail of about {tail} bytes"),
+            )
+        }
+    };
+    let mut v = case.to_json();
+    v["via"] = json!("mem");
+    v["expect"] = json!(expect);
+    v["limit"] = json!(why);
+    v
+}
+
 pub fn gen(seed: u64, tier: Tier, k: u64) -> Value {
+    if (tier == Tier::Quick && (4..8).contains(&k)) || (tier == Tier::Thorough && k % 150 < 4) {
+        return gen_limit(seed, k % 150 % 4 + if tier == Tier::Quick { 0 } else { 4 * (k / 150) });
+    }
     let mut rng = Rng::keyed(seed, "C02", k);
     let nv = rng.range(0, 3) as usize;
     let vstores: Vec<bool> = (0..nv).map(|_| rng.chance(1, 2)).collect();
@@ -441,7 +487,17 @@ pub fn run_dir_case(desc: &Value, ctx: &Ctx, opts: &VerifyOpts) -> CaseOut {
             create_mem(&case).map(|(i, b)| (i, Some(b)))
         }
     });
+    let unrepresentable = jstr(desc, "expect") == "unrepresentable";
+    if desc.get("expect").is_some() {
+        out.obs.inc(&format!("limit_cases.{}", jstr(desc, "expect")));
+        out.nontrivial = true;
+    }
     let (inst, bytes) = match created {
+        Err(_) | Ok(Err(_)) if unrepresentable => {
+            // a value that cannot be represented makes creation fail: the accepted outcome
+            out.obs.inc("unrepresentable_inputs_refused");
+            return out;
+        }
         Err(p) => {
             out.violate_panic(opts.prop, "create", &dir_class(&case), &p);
             return out;
@@ -469,6 +525,20 @@ pub fn run_dir_case(desc: &Value, ctx: &Ctx, opts: &VerifyOpts) -> CaseOut {
     });
     if let Err(p) = r {
         out.violate_panic(opts.prop, "read", &dir_class(&case), &p);
+    }
+    if unrepresentable {
+        if out.verdict == Verdict::Violated {
+            // accepted by the creator, then not read back exactly: "stored altered"
+            let first = out.viols.first().map(|v| v.what.clone()).unwrap_or_default();
+            out.viols.clear();
+            out.violate(
+                json!({"kind": "unrepresentable-accepted", "limit": util::normalize_msg(jstr(desc, "limit")), "profile": profile()}),
+                format!("{}: an input that cannot be represented ({}) was accepted by the creator and is not read back as written: {first}", opts.prop, jstr(desc, "limit")),
+                json!({}),
+            );
+        } else {
+            out.obs.inc("unrepresentable_by_model_but_round_trips");
+        }
     }
     out
 }
